@@ -8,6 +8,7 @@
 //!   D kind n            a construct nested / repeated n times
 //!   S seed              a short soup of types / expressions / words in one position of a valid program
 //!   F path              a file of /verif (corpus)
+//!   K index             an extreme constant expression in one of the compile-time-evaluated positions
 //!   X hex               the entry file given byte for byte
 //! Output: OK n | ERR <first line> | PANIC <file>: <message> ; the supervisor adds ABORT <status> and TIMEOUT.
 use crate::common::*;
@@ -122,7 +123,8 @@ fn skeleton(seed: u64) -> String {
     const EXPRS: &[&str] = &["0", "1", "-1", "1u", "1.0", "1.0f", "1.0h", "1.0L", "true", "x", "y", "s", "s.m", "s.v", "s.v.x", "s.v.xyzw", "a", "a[0]", "a[1]", "a[x]", "t", "t.Load(int3(0, 0, 0))", "t[uint2(0, 0)]",
         "buf", "buf.Load(0)", "buf.Load<S>(0)", "buf.Load<float4>(4)", "sb[0]", "sb[0].m", "f(1)", "f(x)", "g()", "E::A", "A", "(int)E::A", "(E)1", "(S)0", "(float4)0", "(float3x3)1", "float2(1, 2)", "float4(1, 2, 3, 4)",
         "float3(1, 2)", "int2(1.5, 2)", "x + y", "x * 2.5", "x / 0", "x % 0", "1 / 0", "1 % 0", "1.0 / 0", "x << 33", "1 << 32", "1 << -1", "-2147483648", "2147483648", "4294967295", "4294967296", "0x7fffffff + 1",
-        "0u - 1u", "-(-2147483647 - 1)", "x ? y : 1", "x ? s : s", "x, y", "x = y", "x += 1", "x++", "--x", "!x", "~x", "-x", "+x", "&x", "*x", "sizeof(int)", "sizeof(S)", "sizeof(x)", "sizeof(T2)", "abs(x)", "abs(s)",
+        "0u - 1u", "-(-2147483647 - 1)", "(-2147483647 - 1) % -1", "(-2147483647 - 1) / -1", "(int)-2147483648 % (int)-1", "(int)-2147483648 / (int)-1", "(-2147483647 - 1) * -1", "2147483647 * 2", "2147483647 + 2147483647",
+        "4294967295u + 1u", "4294967295u * 4294967295u", "1u << 32u", "1 >> 40", "(int)4294967295u", "(uint)-1", "(int)1e20", "(uint)-1.5", "(int)(1.0 / 0.0)", "5 % -3", "-5 / 2", "abs(-2147483647 - 1)", "0x80000000 / -1", "x ? y : 1", "x ? s : s", "x, y", "x = y", "x += 1", "x++", "--x", "!x", "~x", "-x", "+x", "&x", "*x", "sizeof(int)", "sizeof(S)", "sizeof(x)", "sizeof(T2)", "abs(x)", "abs(s)",
         "min(x, 1.0)", "max(float2(1, 2), 3)", "mul(m, v)", "mul(v, m)", "mul(m, m)", "dot(v, v)", "cross(v.xyz, v.xyz)", "length(v)", "normalize(v)", "lerp(v, v, 0.5)", "clamp(x, 0, 1)", "saturate(v)", "asuint(1.0)",
         "asfloat(x)", "f16tof32(x)", "f32tof16(1.0)", "countbits(x)", "firstbithigh(x)", "WaveActiveSum(x)", "WaveGetLaneIndex()", "isnan(1.0)", "select(true, 1, 2)", "and(true, false)", "v.xyzw.wzyx.xy", "v.rgba", "v.xr",
         "v.xxxxx", "m[0]", "m[0][0]", "m._m00", "m._11_22", "m[4]", "v[5]", "a[2]", "a[-1]", "s.nope", "nope", "nope()", "x.y", "1.x", "1.0.x", "x()", "t.Nope()", "t.Sample(ss, float2(0, 0))", "t.SampleLevel(ss, float2(0, 0), 0)",
@@ -185,6 +187,30 @@ StructuredBuffer<S> sb;\nSamplerState ss;\ncbuffer CB { float4x4 m; float4 v; ui
         _ => format!("[[{}]] {} r1;\n{} r2 = StaticSampler {{ {} }};", z, ty, ty2, soup(&mut rng, 3)),
     };
     format!("{}{}\n", prelude, body)
+}
+
+/// extreme constant expressions in the positions that are evaluated at compile time
+pub const CONST_EXPRS: &[&str] = &[
+    "(-2147483647 - 1) % -1", "(-2147483647 - 1) / -1", "(-2147483647 - 1) * -1", "-(-2147483647 - 1)", "(-2147483647 - 1) - 1", "2147483647 + 1", "2147483647 * 2", "0u - 1u", "4294967295u + 1u",
+    "4294967295u * 4294967295u", "1 << 31", "1 << 32", "1 << 33", "1 << -1", "1u << 32u", "1u << 4294967295u", "-1 >> 40", "1u >> 32u", "1 / 0", "1 % 0", "1u / 0u", "1u % 0u", "1.0 / 0.0", "0.0 / 0.0", "5 % -3", "-5 / 2",
+    "(int)4294967295u", "(uint)-1", "(int)1e20", "(uint)-1.5", "(int)(1.0 / 0.0)", "(uint)(0.0 / 0.0)", "(int)3000000000.0", "(bool)2", "(int)true + (int)true", "~0", "~0u", "!5", "-2147483648", "2147483648", "4294967296",
+    "-9223372036854775807 - 2", "9223372036854775807 + 1", "18446744073709551615 + 1", "18446744073709551615 * 2", "1e308 * 10.0", "-1e308 * 10.0", "1e-320 / 10.0", "(float)1e39", "(half)65520.0", "(half)1e-10",
+    "true ? 1 : (1 / 0)", "false && (1 / 0) == 0", "sizeof(int) - 8u", "(int)sizeof(float4x4) * 1000000000", "abs(-2147483647 - 1)", "min(1, 2u)", "max(-1, 1u)", "(int)EK::A - 2147483647 - 2", "EK::A", "(EK)5",
+];
+
+fn const_probe(i: usize) -> Option<String> {
+    let e = CONST_EXPRS.get(i / 8)?;
+    let pre = "enum EK { A = 1, B = -3 };\n";
+    Some(match i % 8 {
+        0 => format!("{}static const int c = {};\nfloat f(float x[c + 4]) {{ return x[0]; }}\n", pre, e),
+        1 => format!("{}static const uint c = {};\n", pre, e),
+        2 => format!("{}static const float c = {};\n", pre, e),
+        3 => format!("{}float a[{}];\n", pre, e),
+        4 => format!("{}enum E2 {{ K0 = {}, K1 }};\n", pre, e),
+        5 => format!("{}[numthreads({}, 1, 1)] void CS() {{}}\nPipeline P {{ ComputeShader = CS; }}\n", pre, e),
+        6 => format!("{}void f(int a) {{ switch (a) {{ case {}: break; }} }}\n", pre, e),
+        _ => format!("{}void f() {{ [unroll({})] for (int i = 0; i < 2; ++i) {{}} int l = {}; }}\n", pre, e, e),
+    })
 }
 
 fn nest(kind: &str, n: usize) -> Option<Input> {
@@ -286,6 +312,7 @@ pub fn input_of(w: &[&str]) -> Option<Input> {
         }
         ("D", 3) => nest(w[1], w[2].parse().ok()?),
         ("S", 2) => plain(skeleton(w[1].parse().ok()?)),
+        ("K", 2) => plain(const_probe(w[1].parse().ok()?)?),
         ("F", 2) => {
             let root = std::env::var("RSSL_VERIF").unwrap_or("/verif".into());
             plain(std::fs::read_to_string(format!("{}/{}", root, w[1])).ok()?)
@@ -352,6 +379,7 @@ pub fn gen_cases(seed: u64, n: usize, thorough: bool) -> Vec<String> {
         let big: &[usize] = if thorough { &[64, 500, 2000] } else { &[64, 500] };
         for d in big { out.push(format!("{} D {} {}", cfg(&mut rng), k, d)); }
     }
+    for i in 0..(CONST_EXPRS.len() * 8) { out.push(format!("{} K {}", cfg(&mut rng), i)); }
     for _ in 0..n {
         out.push(format!("{} B {} {}", cfg(&mut rng), rng.below(1 << 40), rng.range(1, 4096)));
         out.push(format!("{} T {} {}", cfg(&mut rng), rng.below(1 << 40), rng.range(1, 4096)));
